@@ -585,55 +585,67 @@ def rule_cache(chk):
     t = M.cy(NB)
     # NeighborCache
     nc = M.find_class(t, 'NeighborCache')
+    from verif_static import paths as PT
     cu = M.find_func(nc, 'update')
-    gc = C.build_cfg(cu)
-    resets = [n.id for n in gc.nodes if n.ast is not None and isinstance(n.ast, ast.Assign) and compact(n.ast.targets[0]).startswith('self._cached.data[')
-              and compact(n.ast.value) == '0']
+    upaths = PT.enumerate_paths(M.docstring_stripped(cu.body))
+    COUNT = 'self._particles[self._dst_index].get_number_of_particles()'
+
+    def loops_entered(pths):
+        seen = {}
+        for p_ in pths:
+            for e in p_:
+                if e.kind == 'loop' and e.truth and id(e.node) not in seen:
+                    seen[id(e.node)] = e
+        return list(seen.values())
     ok = False
-    if resets:
-        loop = M.enclosing(gc.nodes[resets[0]].ast, (ast.For,))
-        npd = [a for a in ast.walk(cu) if isinstance(a, (ast.AnnAssign, ast.Assign)) and compact(a.target if isinstance(a, ast.AnnAssign) else a.targets[0]) == 'np'
-               and a.value is not None]
-        ok = loop is not None and compact(loop.iter) == 'range(np)' and bool(npd) and \
-            compact(npd[0].value) == 'self._particles[dst_index].get_number_of_particles()' and \
-            M.enclosing(loop, (ast.If, ast.For, ast.While)) is None and \
-            not any(isinstance(x, ast.Return) for x in ast.walk(cu)) and \
-            compact(gc.nodes[resets[0]].ast.targets[0]) == 'self._cached.data[%s]' % U(loop.target)
-        rs = [c for c in M.calls(cu) if M.call_name(c) == 'self._cached.resize' and compact(c.args[0]) == 'np']
-        ok = ok and bool(rs)
+    okb = False
+    for e in loops_entered(upaths):
+        l = e.node
+        if not (isinstance(l, ast.For) and isinstance(l.target, ast.Name) and isinstance(l.iter, ast.Call) and M.call_name(l.iter) == 'range' and len(l.iter.args) == 1):
+            continue
+        bound = compact(PT.resolve(l.iter.args[0], e.env))
+        lv = l.target.id
+        zero = [a for a in l.body if isinstance(a, ast.Assign) and compact(a.targets[0]) == 'self._cached.data[%s]' % lv and compact(a.value) == '0']
+        if zero and bound == COUNT and M.enclosing(l, (ast.If, ast.For, ast.While)) is None and not any(isinstance(x, ast.Return) for x in ast.walk(cu)):
+            rs = [c for c in M.calls(cu) if M.call_name(c) == 'self._cached.resize' and compact(PT.resolve(c.args[0], e.env)) == COUNT]
+            ok = bool(rs)
+        if bound == 'self._n_threads':
+            inner = PT.enumerate_paths(list(l.body))
+            okb = okb or all(any(cal == 'self._neighbors[%s].c_reset' % lv for i, c, cal, env in PT.calls_on(p2)) for p2 in inner)
     chk.decide(ok, 'results-not-stale', 'cache:every-entry-invalidated-unconditionally', node=cu, file=NB, func='NeighborCache.update',
                detail_bad='NeighborCache.update does not clear the "cached" flag of every current destination particle on every call (an early return '
                           'or a condition keeps old - possibly empty - neighbour lists alive after particles moved)',
                detail_ok='_cached[i] = 0 for all i < current particle count, no early exit')
-    ok = all(any(M.call_name(c) == 'arr.c_reset' for c in M.calls(cu)) for _ in [0]) and \
-        any(isinstance(l, ast.For) and compact(l.iter) == 'range(n_threads)' for l in ast.walk(cu))
-    chk.decide(ok, 'results-not-stale', 'cache:thread-buffers-reset', node=cu, file=NB, func='NeighborCache.update',
+    chk.decide(okb, 'results-not-stale', 'cache:thread-buffers-reset', node=cu, file=NB, func='NeighborCache.update',
                detail_bad='per-thread neighbour buffers are not emptied on update', detail_ok='every thread buffer c_reset()')
     # a cache fill: append into the calling thread's own buffer; remember (thread, length before, length after) for this particle
     fnb = M.find_func(nc, '_find_neighbors')
     did = fnb.args.args[1].arg
-    q = [c for c in M.calls(fnb) if (M.call_name(c) or '').endswith('.find_nearest_neighbors')]
-    ok = len(q) == 1 and len(q[0].args) == 2 and compact(q[0].args[0]) == did
-    why = 'one query for the particle'
+    fpaths = PT.enumerate_paths(M.docstring_stripped(fnb.body))
+    ok = len(fpaths) == 1
+    why = 'straight-line fill'
     if ok:
-        buf = q[0].args[1]
-        tv = compact(buf.slice) if isinstance(buf, ast.Subscript) else None
-        tdef = value_of(fnb, tv) if tv else None
-        ok = tdef is not None and M.call_name(tdef) == 'threadid'
-        why = 'buffer selected by threadid()'
-        st = stores_to(fnb, 'self._start_stop.data')
-        first = [x for x in st if same(x[0], '2*%s' % did)]
-        second = [x for x in st if same(x[0], '2*%s+1' % did)]
-        blen = compact(buf) + '.length'
+        p_ = fpaths[0]
+        qs = [(i, c, env) for i, c, cal, env in PT.calls_on(p_) if cal.endswith('.find_nearest_neighbors')]
+        ok = len(qs) == 1 and len(qs[0][1].args) == 2 and compact(qs[0][1].args[0]) == did
+        why = 'one query for the particle'
         if ok:
-            ok = len(st) == 2 and len(first) == 1 and len(second) == 1 and compact(first[0][1]) == blen and compact(second[0][1]) == blen and \
-                first[0][2].lineno < q[0].lineno < second[0][2].lineno
-            why = 'start = buffer length before the query at [2*i], stop = length after it at [2*i+1]'
-        if ok:
-            cz = [x for x in stores_to(fnb, 'self._cached.data') if compact(x[0]) == did]
-            pt = [x for x in stores_to(fnb, 'self._pid_to_tid.data') if compact(x[0]) == did]
-            ok = len(cz) == 1 and isinstance(cz[0][1], ast.Constant) and cz[0][1].value == 1 and cz[0][2].lineno > q[0].lineno and len(pt) == 1 and compact(pt[0][1]) == tv
-            why = 'cached flag set after the query; thread id recorded'
+            iq, qc, qenv = qs[0]
+            buf = compact(PT.resolve(qc.args[1], qenv))
+            ok = buf == 'self._neighbors[threadid()]'
+            why = 'buffer selected by threadid()'
+            sto = PT.stores_on(p_)
+            first = [(i, v) for i, tg, v in sto if tg.startswith('self._start_stop.data[') and same(ast.parse(tg, mode='eval').body.slice, '2*%s' % did)]
+            second = [(i, v) for i, tg, v in sto if tg.startswith('self._start_stop.data[') and same(ast.parse(tg, mode='eval').body.slice, '2*%s+1' % did)]
+            if ok:
+                ok = len(first) == 1 and len(second) == 1 and compact(first[0][1]) == buf + '.length' and compact(second[0][1]) == buf + '.length' and first[0][0] < iq < second[0][0] and \
+                    len([1 for i, tg, v in sto if tg.startswith('self._start_stop.data[')]) == 2
+                why = 'start = buffer length before the query at [2*i], stop = length after it at [2*i+1]'
+            if ok:
+                cz = [(i, v) for i, tg, v in sto if tg == 'self._cached.data[%s]' % did]
+                pt = [(i, v) for i, tg, v in sto if tg == 'self._pid_to_tid.data[%s]' % did]
+                ok = len(cz) == 1 and isinstance(cz[0][1], ast.Constant) and cz[0][1].value == 1 and cz[0][0] > iq and len(pt) == 1 and compact(pt[0][1]) == 'threadid()'
+                why = 'cached flag set after the query; thread id recorded'
     chk.decide(ok, 'results-not-stale', 'cache:fill-uses-own-thread-buffer', node=fnb, file=NB, func='NeighborCache._find_neighbors',
                detail_bad='a cache fill does not append into the calling thread\'s own buffer and record (thread, start, stop) for the particle [failed: %s]' % why,
                detail_ok='own buffer, start/stop recorded around the query')
@@ -658,6 +670,12 @@ def rule_cache(chk):
                 ok = same(resolve(gr, n_e.left), 'self._start_stop.data[2*%s+1]' % did) and same(resolve(gr, n_e.right), 'self._start_stop.data[2*%s]' % did)
             else:
                 ok = False
+    # the caller's array is re-pointed on every path (also for a particle without neighbours: a view of length 0, not whatever the array held before)
+    gpaths = PT.enumerate_paths(M.docstring_stripped(gr.body))
+    unset = [p_ for p_ in gpaths if p_[-1].kind != 'raise' and not any(cal == out + '.c_set_view' for i, c, cal, env in PT.calls_on(p_))]
+    chk.decide(bool(gpaths) and not unset, 'results-not-stale', 'cache:lookup-sets-the-view-on-every-path', node=gr, file=NB, func='NeighborCache.get_neighbors_raw',
+               detail_bad='a path through the cached lookup leaves the caller\'s array untouched (tests on it: %s): a re-used array then still shows the previous particle\'s neighbours'
+                          % ([U(e.node) + ' -> %s' % e.truth for e in unset[0] if e.kind == 'cond'] if unset else ''), detail_ok='c_set_view on every path')
     chk.decide(ok, 'results-not-stale', 'cache:lookup-returns-own-slice', node=gr, file=NB, func='NeighborCache.get_neighbors_raw',
                detail_bad='cached lookup does not fill on miss and return exactly [start, stop) of the recording thread\'s buffer', detail_ok='fill on miss; view [start, stop) of buffer[tid]')
 
@@ -1172,6 +1190,35 @@ def rule_valid_cell(chk):
                    detail_ok='0 <= %s < %s[%d]' % (ax, args[3], k))
 
 
+def rule_level_cell_size(chk):
+    """StratifiedHashNNPS bins every particle of a level with that level's cell size, which queries read afterwards: the per-level maxima of h must be complete before the
+    first particle is binned and must not change while binning (a running maximum bins early particles with a smaller cell size than the queries assume)"""
+    rel = 'pysph/base/stratified_hash_nnps.pyx'
+    t = M.cy(rel)
+    cls = M.find_class(t, 'StratifiedHashNNPS')
+    fn = M.find_func(cls, '_bin')
+    who = 'StratifiedHashNNPS._bin'
+    M.set_parents(fn)
+    g = C.build_cfg(fn)
+    sets = [n.id for n in g.nodes if n.ast is not None and isinstance(n.ast, ast.Expr) and M.call_name(n.ast.value) == 'self._set_h_max']
+    loops = [l for l in fn.body if isinstance(l, ast.For) and any((M.call_name(c) or '').endswith('.add') or (M.call_name(c) or '').endswith('_get_h_max') for c in M.calls(l))]
+    if not loops:
+        raise AnalysisError('%s: binning loop not found' % who)
+    ln = g.node_of(loops[0])
+    ok1 = bool(sets) and ln is not None and any(g.dominates(s_, ln) for s_ in sets)
+    chk.decide(ok1, 'cell-size-covers-every-array', 'StratifiedHashNNPS:level-maxima-before-binning', node=loops[0], file=rel, func=who,
+               detail_bad='the per-level maxima of h (_set_h_max) are not computed before the binning loop', detail_ok='_set_h_max(...) dominates the binning loop')
+    tabs = set()
+    for c in M.calls(fn):
+        if M.call_name(c) in ('self._set_h_max', 'self._get_h_max') and c.args:
+            tabs.add(compact(c.args[0]))
+    writes = [a for a in ast.walk(loops[0]) if isinstance(a, (ast.Assign, ast.AugAssign)) and isinstance(a.targets[0] if isinstance(a, ast.Assign) else a.target, ast.Subscript)
+              and compact((a.targets[0] if isinstance(a, ast.Assign) else a.target).value) in tabs]
+    chk.decide(not writes, 'cell-size-covers-every-array', 'StratifiedHashNNPS:level-maxima-fixed-while-binning', node=writes[0] if writes else loops[0], file=rel, func=who,
+               detail_bad='`%s` changes a level\'s maximum h inside the binning loop: particles binned earlier used a smaller cell size than the one queries will assume' % (U(writes[0]) if writes else ''),
+               detail_ok='the table of level maxima is read-only while binning')
+
+
 def rule_octree(chk):
     """tree searches prune a node only when neither the query's radius nor the largest source radius in the node reaches it"""
     from verif_static import symb as S
@@ -1564,6 +1611,7 @@ def main(chk):
     rule_bounds(chk)
     rule_bins_all(chk)
     rule_valid_cell(chk)
+    rule_level_cell_size(chk)
     rule_narrowing(chk)
     rule_cxx_headers(chk)
     # only valid indices, no duplicates: a sort of the result must touch exactly the slice this query appended (rule shared with C05)
